@@ -117,7 +117,8 @@ pub assume_specification<'a, T, P: FnMut(&'a T) -> bool>
 impl<T: Evaluate> Evaluate for Segment<T> {
     open spec fn ev(&self, v: f64) -> f64 { self.poly.ev(v) }
     open spec fn wf(&self) -> bool { self.poly.wf() }
-    #[verifier::external_body] fn evaluate(&self, v: f64) -> (r: f64) { unimplemented!() }
+//@extract file=src/piecewise.rs impl="impl<T: Evaluate> Evaluate for Segment<T>" fn=evaluate mode=contract-only props=none
+//@end
 }
 
 //@struct file=src/piecewise.rs name=PiecewiseEvaluator pubfields=1
@@ -242,7 +243,7 @@ impl<'a, T: Evaluate> PiecewiseEvaluator<'a, T> {
             }
             self.tail.first().unwrap_or(self.last)
 //@endsub
-//@subblock self.last_evaluation = x
+//@afterlet seg
         proof {
             let c = self.cur();
             assert forall|i: int| 0 <= i < c implies ord(#[trigger] s[i].end) <= ord(x) by { assert(s[i] == f[i]); }
@@ -250,7 +251,6 @@ impl<'a, T: Evaluate> PiecewiseEvaluator<'a, T> {
             lemma_cursor_is_sel(s, x, c);
             assert(*seg == s[c]);
         }
-        self.last_evaluation = x
 //@endsub
 //@end
 }
